@@ -898,6 +898,11 @@ def main(run):
     run.explore('alias', alias_cases(run.tier), run_case, budget_s=120)
     run.explore('scalar', scalar_cases(), run_case, budget_s=60)
     run.explore('sweep', sweep_cases(run.tier), run_case, budget_s=600, chunksize=1)
+    # results are READ in the unit system of the input too: the summary tables of dassh.out whose every
+    # printed cell is compared with the harness's own unit-converted value (vf/props/reports.py)
+    from . import reports
+    run.explore('report-geometry', reports.cases_geometry(run.tier), reports.run_geometry, budget_s=300)
+    run.explore('report-power', reports.cases_power(run.tier), reports.run_power, budget_s=300)
     # vacuity: together the families must contain every dimensional key, and every
     # dimensional leaf must have been compared with a non-zero value
     have = set(run.extra.get('input_keys', {}))
@@ -918,6 +923,9 @@ def main(run):
 
 
 def replay(body):
+    if str((body.get('scenario') or {}).get('probe', '')).startswith('report-'):
+        from . import reports
+        return reports.replay(body)
     sc = body['scenario']
     if 'mode' not in sc:
         print('nothing to replay for this violation (cross-case check)')
